@@ -105,6 +105,23 @@ def small_lexicons():
                     if frames:
                         lex['frames'] = copy.deepcopy(frames)
                     yield lex
+    # several entry-level frames per entry (with / without `senses`) and a later entry that uses some of them again:
+    # every frame of every entry must end up with exactly its own senses
+    efr = [{'subcategorizationFrame': 'F1'}, {'subcategorizationFrame': 'F2'},
+           {'subcategorizationFrame': 'F3', 'senses': ['s12']}]
+    for k1 in range(1, 8):
+        fs1 = [copy.deepcopy(f) for i, f in enumerate(efr) if k1 >> i & 1]
+        for k2 in range(0, 8):
+            fs2 = [copy.deepcopy(f) for i, f in enumerate(efr[:2] + [{'subcategorizationFrame': 'F3'}]) if k2 >> i & 1]
+            e1 = {'id': 'e1', 'meta': None, 'lemma': {'writtenForm': 'w', 'partOfSpeech': 'v'},
+                  'senses': [{'id': 's11', 'synset': 'ss', 'meta': None}, {'id': 's12', 'synset': 'ss', 'meta': None}],
+                  'frames': fs1}
+            e2 = {'id': 'e2', 'meta': None, 'lemma': {'writtenForm': 'x', 'partOfSpeech': 'v'},
+                  'senses': [{'id': 's21', 'synset': 'ss', 'meta': None}]}
+            if fs2:
+                e2['frames'] = fs2
+            yield {'id': 'x', 'version': '1', 'label': 'l', 'language': 'en', 'email': 'e', 'license': 'l',
+                   'meta': None, 'entries': [e1, e2]}
 
 
 def check_collect_frames():
